@@ -3,6 +3,184 @@ open Lean (Json)
 namespace FtDriver
 open Ft
 
-def handleC19 (_j : Json) : Except String Verdict := throw "C19: not implemented"
+/-! C19 — cost models: cases of kind "and" (traces of `a & b` fed to the three
+    intersectors), "lf" (leader trace of a leader-follower intersection fed to the
+    leader-follower intersector) and "swaps" (`Compute.numSwaps`). -/
+
+/-- a trace row: a list of strings is the header, a list of ints a data row -/
+def parseRow (j : Json) : Except String TRow := do
+  let cells ← asList j
+  match cells with
+  | c :: _ =>
+    match c with
+    | .str _ => pure (TRow.hdr cells.length)
+    | _ => do pure (TRow.data (← cells.mapM (·.getInt?)))
+  | [] => pure (TRow.data [])
+
+def parseTrace (j : Json) : Except String (List TRow) := do (← asList j).mapM parseRow
+
+/-- presented coordinates of a leaf fiber given as [[coord, value], …] -/
+def presentedCoords (dflt : Int) (j : Json) : Except String (List Int) := do
+  let f ← parseTree 1 j
+  pure ((present (κ := Int) dflt 0 f).map (·.1))
+
+def parseFiberIn (dflt : Int) (j : Json) : Except String FiberIn := do
+  let oi ← asInts (← field j "oi")
+  let pre ← asInts (← field j "pre")
+  let a ← presentedCoords dflt (← field j "a")
+  let b ← presentedCoords dflt (← field j "b")
+  pure { oi, pre, a, b }
+
+/-- `null`/"ERR" = the call raised -/
+def optTotal (j : Json) (k : String) : Option Int :=
+  match fInt j k with | .ok v => some v | _ => none
+
+def totalJson : Option Int → Json
+  | some v => jInt v
+  | none => Json.str "ERR"
+
+/-- what the cost models read of a row -/
+def rowView (n : Nat) : TRow → Option (List Int)
+  | .hdr l => some [-1, l]
+  | r => r.point n
+
+def traceView (n : Nat) (t : List TRow) : List (Option (List Int)) := t.map (rowView n)
+
+/-- first unclean fiber that is followed by another fiber in its group -/
+def dirtyKind : List FiberIn → Option String
+  | [] => none
+  | [_] => none
+  | f :: g =>
+    if f.a.isEmpty != f.b.isEmpty then some "dirty:one-operand-empty-before-boundary"
+    else if !cleanEnd f.a f.b then some "dirty:match-exhausts-one-operand-before-boundary"
+    else dirtyKind g
+
+def fiberTags (f : FiberIn) : List String :=
+  let l := mergeLabels f.a f.b
+  (if f.a.isEmpty && f.b.isEmpty then ["bothEmpty"] else
+    (if f.a.isEmpty then ["emptyA"] else []) ++ (if f.b.isEmpty then ["emptyB"] else [])) ++
+  (if l.contains Lab.M then ["match"] else []) ++
+  (if l.contains Lab.L then ["advA"] else []) ++ (if l.contains Lab.R then ["advB"] else []) ++
+  (if sameSideRuns l + l.count Lab.M < l.length then ["longRun"] else []) ++
+  (let u := andUses 0 f.a f.b
+   (if u.1.length > (l.filter (· != Lab.R)).length then ["trailA"] else []) ++
+   (if u.2.length > (l.filter (· != Lab.L)).length then ["trailB"] else []))
+
+def batchingTag (groups : List (List FiberIn)) : String :=
+  let nf := (groups.map List.length).sum
+  if nf ≤ 1 then "single-fiber"
+  else if groups.all (fun g => g.length ≤ 1) then "fiber-by-fiber"
+  else if groups.length == 1 then "one-shot"
+  else "mixed-batching"
+
+def dedup (l : List String) : List String := l.foldl (fun acc s => if acc.contains s then acc else acc ++ [s]) []
+
+def handleAnd (j : Json) : Except String Verdict := do
+  let n ← fNat j "n"
+  let dflt := fIntD j "dflt" 0
+  let groups ← (← fArr j "groups").mapM (fun g => do (← asList g).mapM (parseFiberIn dflt))
+  let fs := groups.flatten
+  if !(fs.all (FiberIn.shapeOk n)) || n == 0 then
+    return { agree := true, spec := true, tags := ["OUT_OF_MODEL"] }
+  let impl ← field j "impl"
+  let ib ← (← fArr impl "batches").mapM (fun b => do
+    match (← asList b) with
+    | [t0, t1] => pure ((← parseTrace t0), (← parseTrace t1))
+    | _ => throw "batch: expected [trace0, trace1]")
+  let mb := batchesOf n groups
+  let view := fun (b : List (List TRow × List TRow)) => b.map (fun p => (traceView n p.1, traceView n p.2))
+  let ptsAgree := decide (view mb = view ib)
+  let rowsExact := decide (mb = ib)
+  -- the models on the model's own traces
+  let mtf := tfTotal mb
+  let msa := saTotal mb
+  let mlf0 := lfTotal (mb.map (·.1))
+  let mlf1 := lfTotal (mb.map (·.2))
+  let itf := optTotal impl "tf"; let isa := optTotal impl "sa"
+  let ilf0 := optTotal impl "lf0"; let ilf1 := optTotal impl "lf1"
+  let agreeParts := [("points", ptsAgree), ("tf", decide (mtf = itf)), ("sa", decide (msa = isa)),
+                     ("lf0", decide (some mlf0 = ilf0)), ("lf1", decide (some mlf1 = ilf1))]
+  -- the specification on the implementation's observation
+  let dataRows := fun (sel : List TRow × List TRow → List TRow) =>
+    ((ib.map (fun b => ((sel b).filter (fun r => match r with | .hdr _ => false | _ => true)).length)).sum : Nat)
+  let specParts := [("tf", decide (itf = some (tfSpecAll fs : Int))),
+                    ("sa", decide (isa = some (saSpecAll fs : Int))),
+                    ("lf0", decide (ilf0 = some (dataRows (·.1) : Int))),
+                    ("lf1", decide (ilf1 = some (dataRows (·.2) : Int)))]
+  let bad := fun (l : List (String × Bool)) => (l.filter (fun p => !p.2)).map (·.1)
+  let tags := dedup ([batchingTag groups, s!"ranks={n}"] ++ (fs.flatMap fiberTags) ++
+    (match dirtyKind' groups with | some k => [k] | none => []) ++
+    (if rowsExact then ["rows-exact"] else ["rows-differ-outside-points"]))
+  let model := Json.mkObj [("tf", totalJson mtf), ("sa", totalJson msa), ("lf0", jInt mlf0), ("lf1", jInt mlf1),
+    ("spec_tf", jNat (tfSpecAll fs)), ("spec_sa", jNat (saSpecAll fs))]
+  pure { agree := (bad agreeParts).isEmpty, spec := (bad specParts).isEmpty, model, tags,
+         why := s!"disagree={bad agreeParts} specfail={bad specParts}" }
+where
+  dirtyKind' (groups : List (List FiberIn)) : Option String :=
+    groups.findSome? dirtyKind
+
+def handleLf (j : Json) : Except String Verdict := do
+  let n ← fNat j "n"
+  let dflt := fIntD j "dflt" 0
+  let groups ← (← fArr j "groups").mapM (fun g => do (← asList g).mapM (parseFiberIn dflt))
+  let fs := groups.flatten
+  if !(fs.all (FiberIn.shapeOk n)) || n == 0 then
+    return { agree := true, spec := true, tags := ["OUT_OF_MODEL"] }
+  let impl ← field j "impl"
+  let ib ← (← fArr impl "batches").mapM parseTrace
+  let mb := leaderBatchesOf n groups
+  let ptsAgree := decide (mb.map (traceView n) = ib.map (traceView n))
+  let mlf := lfTotal mb
+  let ilf := optTotal impl "lf"
+  let tags := dedup ([batchingTag groups, s!"ranks={n}", "leader-follower"] ++
+    (if fs.any (fun f => f.a.isEmpty) then ["emptyA"] else []) ++
+    (if decide (mb = ib) then ["rows-exact"] else ["rows-differ-outside-points"]))
+  pure { agree := ptsAgree && decide (some mlf = ilf), spec := decide (ilf = some (lfSpecAll fs : Int)),
+         model := jInt mlf, tags, why := s!"points={ptsAgree} model={mlf} spec={lfSpecAll fs}" }
+
+def parseRadix (j : Json) : Except String (Option Nat) := do
+  match (← field j "radix") with
+  | .str _ => pure none
+  | v => do pure (some (← v.getNat?))
+
+def parseLat (j : Json) : Except String Lat := do
+  match (← field j "lat") with
+  | .str _ => pure Lat.inf
+  | v => do pure (Lat.fin (← v.getNat?))
+
+def handleSwaps (j : Json) : Except String Verdict := do
+  let e ← fNat j "e"
+  let depth ← fNat j "depth"
+  let dflt := fIntD j "dflt" 0
+  let radix ← parseRadix j
+  let lat ← parseLat j
+  let t ← fTree j "t" (e + 2 + depth)
+  let radixOk := match radix with | none => true | some r => decide (2 ≤ r)
+  if !(wfB (e + 2 + depth) t) || !radixOk then
+    return { agree := true, spec := true, tags := ["OUT_OF_MODEL"] }
+  let impl := optTotal j "impl"
+  let m := numSwapsTree dflt e radix lat depth t
+  -- the executable specification: closed-form rounds cost / insertion-buffer merge, on the skeleton
+  let sk := skel (e + 2 + depth) t
+  let s := match lat with
+    | .fin l => swapsSpecFin e radix l depth sk
+    | .inf => swapsSpecInf e radix depth sk
+  let nodes := mergeNodes dflt e depth t
+  let tags := dedup ([s!"depth={depth}", s!"below={e}",
+      (match lat with | .inf => "lat=N" | .fin _ => "lat=int"),
+      (match radix with | none => "radix=inf" | some _ => "radix=int")] ++
+    (if presentAgrees dflt e depth t then [] else ["hidden-empty"]) ++
+    (if nodes.any (fun l => l.length ≥ 2) then ["merge"] else ["no-merge"]) ++
+    (if nodes.any (fun l => match radix with | some r => l.length > r | none => false) then ["multi-round"] else []) ++
+    (if nodes.length ≥ 2 then ["several-nodes"] else []))
+  pure { agree := decide (impl = some (m : Int)), spec := decide (impl = some (s : Int)),
+         model := jNat m, tags, why := s!"model={m} spec={s}" }
+
+def handleC19 (j : Json) : Except String Verdict := do
+  match (← fStr j "kind") with
+  | "and" => handleAnd j
+  | "lf" => handleLf j
+  | "swaps" => handleSwaps j
+  | k => throw s!"C19: unknown kind {k}"
 
 end FtDriver
